@@ -71,7 +71,9 @@ FamReloads == { [Base EXCEPT !.vehicles[1].shifts = << [Shift(8, TRUE, 18) EXCEP
 RelJobs == << Job("job1", <<Plain("delivery", 1)>>), Job("job2", <<Plain("pickup", 2)>>),
               Job("job3", <<Plain("pickup", 1), Plain("delivery", 2)>>),
               Job("job4", << [Plain("service", 1) EXCEPT !.places[1].hasTimes = TRUE, !.places[1].ws = <<W(8, 10), W(12, 14)>>] >>),
-              Job("job5", << [Plain("service", 1) EXCEPT !.places = <<Place(Idx(1), "pos", FALSE, <<>>), Place(Idx(2), "pos", FALSE, <<>>)>>] >>) >>
+              Job("job5", << [Plain("service", 1) EXCEPT !.places = <<Place(Idx(1), "pos", FALSE, <<>>), Place(Idx(2), "pos", FALSE, <<>>)>>] >>),
+              Job("job6", <<Plain("replacement", 2)>>),
+              Job("job7", <<Plain("delivery", 1), Plain("replacement", 2)>>) >>
 RelVehicles == << Vehicle("vt1", <<"v1">>, "car", <<Shift(8, TRUE, 18)>>),
                   Vehicle("vt2", <<"v2">>, "car", << [Shift(8, FALSE, 0) EXCEPT !.hasBreaks = TRUE, !.breaks = <<Brk("opt-tw", 10, 12, 1)>>],
                                                      [Shift(30, TRUE, 40) EXCEPT !.hasReloads = TRUE, !.reloads = <<>>, !.hasBreaks = TRUE] >>),
@@ -79,7 +81,7 @@ RelVehicles == << Vehicle("vt1", <<"v1">>, "car", <<Shift(8, TRUE, 18)>>),
 Rel(type, vehicle, sh, jobs) == [type |-> type, vehicle |-> vehicle, hasShift |-> sh[1], shift |-> sh[2], jobs |-> jobs]
 RelJobLists == { <<"job1">>, <<"job1", "job2">>, <<>>, <<"departure">>, <<"departure", "job1", "arrival">>, <<"job1", "break">>, <<"reload", "job2">>,
                  <<"jobX">>, <<"job3">>, <<"job3", "job3">>, <<"job1", "job1">>, <<"job4">>, <<"job5", "job1">>, <<"break", "reload">>,
-                 <<"job1", "recharge">>, <<"recharge">>, <<"dispatch", "job1">> }
+                 <<"job1", "recharge">>, <<"recharge">>, <<"dispatch", "job1">>, <<"job6">>, <<"job7">>, <<"job7", "job7">>, <<"job6", "job6">> }
 RelSingles == { Rel(t, v, sh, js) : t \in {"any", "sequence", "strict"}, v \in {"v1", "v2", "v3", "vX"},
                                     sh \in { <<FALSE, 0>>, <<TRUE, 0>>, <<TRUE, 1>>, <<TRUE, 2>> }, js \in RelJobLists }
 RelPairsOf == { Rel(t, v, <<FALSE, 0>>, js) : t \in {"any", "strict"}, v \in {"v1", "v2"}, js \in { <<"job1">>, <<"job2">>, <<"job1", "job2">>, <<"departure", "job1">> } }
